@@ -231,11 +231,26 @@ class CallMixin:
         st.frames.append(fr)
         st.depth += 1
         st.note("enter " + info.qualname)
+        entry_snap = st.snap() if (c is not None and c.ghost_exit) else None
         outs = self.exec_block(info.node.body, st)
         res = []
         for o, s in outs:
             s.frames.pop()
             s.depth -= 1
+            if o.kind in ("R", "N") and entry_snap is not None:
+                # ghost updates of an inlined callee run at its normal exits (old() = state at its entry)
+                gfr = Frame(info, info.module, spec=True)
+                gfr.locals = dict(bound)
+                gfr.locals["result"] = o.val if o.kind == "R" else NONE
+                saved_old = s.old
+                s.old = entry_snap
+                states = [s]
+                for g in c.ghost_exit:
+                    states = [s3 for s2 in states for s3 in self.run_ghost(g, s2, frame=gfr.copy())]
+                for s2 in states:
+                    s2.old = saved_old
+                    res.extend(k(o.val if o.kind == "R" else NONE, s2))
+                continue
             if o.kind == "R":
                 res.extend(k(o.val, s))
             elif o.kind == "N":
@@ -290,6 +305,10 @@ class CallMixin:
             # exception class without field model: allocate only (its __init__ only stores message data)
             self.assumptions_used.add("exception class %s: __init__ not executed (no field model)" % name)
             return k(obj, st)
+        ic = self.reg.contracts.get(init.fqn)
+        if ic is not None and not ic.inline:
+            # fresh-object preconditions are discharged at the allocation site
+            pass
         return self.call_repo(init, [obj] + list(args), kwargs, st, lambda _r, s: k(obj, s), self_val=obj)
 
     def check_value_init(self, init, fields):
